@@ -113,6 +113,16 @@ CHECKS = {
         '(shape, numbers); every exported view equals that of a DNA rebuilt from the flat numbers (alignment). Exploration.',
         'Literal values distinct; custom decision points not generated; full view product on the first and last DNA of a chain, a 20-view subset in between.',
         'DESIGN.md section 3 C12'),
+    'C13': (
+        'differential PBT against a reference substitution + round-trip (encode o decode) + metamorphic checks over generated templates',
+        'Generated object templates nesting oneof / manyof (every distinct x sorted mode) / floatv placeholders inside dicts, lists, '
+        'untyped and typed objects (placeholders bound to field value specs, incl. out-of-range bindings that must be refused), '
+        'conditional sub-templates, close-but-distinguishable candidates (list prefixes, nested key sets) and `where` filters. All DNAs '
+        'of spaces <=40 (else a prefix + random ones): decode equals an independent reference substitution over (template, flat numbers), '
+        'leaves no placeholder (or only filtered-out ones), encode(decode(dna)) == dna, template JSON unchanged by both, repeated decodes '
+        'equal and node-disjoint, pg.iter yields space_size pairwise different values, materialize with the dict view agrees. Exploration.',
+        'Candidates distinguishable by construction; custom/evolvable placeholders not generated (user code).',
+        'DESIGN.md section 3 C13'),
 }
 
 NOT_BUILT = 'check not built yet in this round (planned; see DESIGN.md section 3)'
